@@ -606,6 +606,8 @@ __CPROVER_ensures((BT_HS_ENTERED && BT_DEAD_STATE(s)) ==> (__CPROVER_return_valu
 __CPROVER_ensures((BT_STATE(s) != conn_state_ready && !BT_DEAD_STATE(s)) ==> (__CPROVER_return_value == -1 && xv_errno == EAGAIN && xv_sw_calls == __CPROVER_old(xv_sw_calls)))
 /* PO[C02,C06] btls_send.stream: the lower-layer send contract: rv >= 1: exactly buf[0..rv) was appended to the plaintext stream; -1: nothing was, errno > 0, anything but EAGAIN means the connection is terminal */
 __CPROVER_ensures(len >= 1 ==> BT_LOWER_SEND_ENSURES(s, __CPROVER_return_value, buf, len))
+/* PO[C02,C03] btls_send.refused_send_leaves_nothing_pending: -1 means that NOTHING of buf will reach the stream: no record built from it stays behind in OpenSSL (decided for a call entered with nothing pending) */
+__CPROVER_ensures((__CPROVER_old(xv_ssl_pending_rec) == 0 && __CPROVER_return_value == -1) ==> xv_ssl_pending_rec == 0)
 /* PO[C02] btls_send.zero_length: nothing to send on a ready socket: 0, OpenSSL is not asked to write */
 __CPROVER_ensures((len == 0 && __CPROVER_return_value != -1) ==> (__CPROVER_return_value == 0 && BT_STATE(s) == conn_state_ready && xv_sw_calls == __CPROVER_old(xv_sw_calls) && xv_tx_off == __CPROVER_old(xv_tx_off)))
 /* PO[C02] btls_send.rv_is_openssl_count: the count reported is the count OpenSSL accepted */
